@@ -338,6 +338,7 @@ class RunConfig:
     on_quiescent: list[Callable[["Harness"], None]] = field(default_factory=list)
     state_digest: Callable[["Harness"], str] | None = None
     time_filter: Callable[["Harness"], bool] | None = None  # may veto the time action
+    gate_filter: Callable[["Harness", Any], bool] | None = None  # may veto releasing a gate (a step that blocks for good)
     busy_ticks: int = 0  # how many ticks of one execution may keep the loop busy until after the next scheduled wake-up
 
 
@@ -407,6 +408,8 @@ class EngineExec:
         h = self.h
         acts: list[Action] = []
         gates = h.pending_gates()
+        if self.cfg.gate_filter is not None:
+            gates = [g for g in gates if self.cfg.gate_filter(h, g)]
         for g in gates:
             acts.append(Action(f"rel:{g.label}", (lambda g=g: g.fut.set_result(None))))
         for i, sc in enumerate(h.scripts):
